@@ -2373,7 +2373,8 @@ func (resp *Response) writeBodyStream(w *bufio.Writer, sendBody bool) (err error
 			if err == nil && sendBody {
 				err = writeBodyChunked(w, resp.bodyStream)
 			}
-			if err == nil {
+			if err == nil && sendBody {
+				// The trailer section belongs to the chunked body.
 				err = resp.Header.writeTrailer(w)
 			}
 		}
